@@ -79,7 +79,9 @@ def scalar_binop(op, a, b):
                 for _ in range(bv):
                     r = r * a
                 return r
-        raise Unsupported("symbolic power")
+        # general power: opaque (A-MATH): only congruence is used
+        pw = z3.Function("pow!uf", z3.RealSort(), z3.RealSort(), z3.RealSort())
+        return pw(to_real(a), to_real(b))
     raise Unsupported(f"scalar operator {op}")
 
 
@@ -154,6 +156,10 @@ def array_binop(op, a, b):
         x = A.cast_term(aa.dtype, dt, x) if op not in ("BitAnd", "BitOr", "BitXor") or dt.kind != "b" else x
         y = A.cast_term(bb.dtype, dt, y) if op not in ("BitAnd", "BitOr", "BitXor") or dt.kind != "b" else y
         r = scalar_binop(op, x, y)
+        if op == "Div" and dt.kind == "f" and not z3.is_rational_value(z3.simplify(y)):
+            # array division does not raise: 0 / 0 is NaN (x / 0 for x != 0 is an infinity: not modelled, left unconstrained = any real)
+            from .core import NAN
+            r = z3.If(z3.And(y == 0, x == 0), NAN, r)
         if dt.kind in "iu" and dt.itemsize < 8 and op in ("Add", "Sub", "Mult"):
             # 64-bit integers are treated as mathematical integers (A-INT64: indices / counts never reach 2^63)
             lo, hi = A.int_range(dt)
@@ -238,6 +244,19 @@ def scalar_compare(op, a, b):
             "Gt": lambda: a > b, "GtE": lambda: a >= b}[op]()
 
 
+def struct_isnan(t):
+    """NaN-ness of a term as far as its If-structure shows it (the NaN token itself, or a branch that is)"""
+    from .core import NAN
+    if z3.eq(t, NAN):
+        return z3.BoolVal(True)
+    if z3.is_app_of(t, z3.Z3_OP_ITE):
+        a, b = struct_isnan(t.arg(1)), struct_isnan(t.arg(2))
+        if z3.is_false(a) and z3.is_false(b):
+            return a
+        return z3.If(t.arg(0), a, b)
+    return z3.BoolVal(False)
+
+
 def compare(op, a, b):
     if op in ("Is", "IsNot"):
         if _sym(a) or _sym(b):
@@ -257,7 +276,15 @@ def compare(op, a, b):
             dt = np.result_type(bb.dtype, _pytype(a))
         elif _weak(b) and not _weak(a):
             dt = np.result_type(aa.dtype, _pytype(b))
-        return A.ewise(lambda x, y: scalar_compare(op, A.cast_term(aa.dtype, dt, x), A.cast_term(bb.dtype, dt, y)), np.dtype(bool), aa, bb)
+        def cmp(x, y):
+            x, y = A.cast_term(aa.dtype, dt, x), A.cast_term(bb.dtype, dt, y)
+            r = scalar_compare(op, x, y)
+            n = z3.simplify(z3.Or(struct_isnan(x), struct_isnan(y)))
+            if z3.is_false(n):
+                return r
+            # comparisons with NaN are False (True for !=)
+            return z3.If(n, z3.BoolVal(op == "NotEq"), r)
+        return A.ewise(cmp, np.dtype(bool), aa, bb)
     if a is None or b is None or isinstance(a, str) or isinstance(b, str):
         return op == "NotEq"
     if isinstance(a, (list, tuple)) or isinstance(b, (list, tuple)):
